@@ -1,6 +1,6 @@
 // The executable every generated monorail command resolves to (through a symlink named after the
 // command).  It records how it was started and does what the scenario script tells it to:
-//   $VHELPER_DIR/script.json : { "<command>|<target>": { "exit": n, "sleep_ms": n, "barrier": k,
+//   $VHELPER_DIR/script.json : { "<command>|<target>": { "exit": n, "signal": n (die from that signal instead of exiting), "sleep_ms": n, "barrier": k,
 //                                 "chunks": [[stream(1|2), "<hex bytes>", pause_ms_after, (repeat)], ...] } , "*": {...} }
 //   $VHELPER_DIR/trace/<unique>.start.json / .end.json : argv (hex), cwd, command, monotonic ns, run number
 use serde_json::{json, Value};
@@ -78,6 +78,14 @@ fn main() {
         }
     }
     if let Some(ms) = ins["sleep_ms"].as_u64() { std::thread::sleep(std::time::Duration::from_millis(ms)); }
+    if let Some(sig) = ins["signal"].as_i64() {
+        // die from a signal instead of exiting (OOM killer, watchdog, crash): the end record is written first and carries no exit code
+        let mut rec = base.clone();
+        rec["end_ns"] = json!(now_ns().to_string()); rec["exit"] = Value::Null; rec["signal"] = json!(sig);
+        let _ = std::fs::write(tdir.join(format!("{}.end.json", uniq)), rec.to_string());
+        unsafe { libc::kill(libc::getpid(), sig as i32); }
+        std::thread::sleep(std::time::Duration::from_secs(5));
+    }
     let end = now_ns();
     let mut rec = base.clone();
     rec["end_ns"] = json!(end.to_string()); rec["exit"] = json!(code);
